@@ -1,6 +1,7 @@
 import TucanProofs.Lemmas.ParserOutput
 import TucanProofs.Lemmas.RoundTripPipeline
 import TucanProofs.Lemmas.OracleNonempty
+import TucanProofs.Lemmas.RespellAst
 /-!
 # C11 — any valid spelling of a molecule normalizes to its one canonical string
 
@@ -34,6 +35,18 @@ theorem C11_respelling (O : CanonOracle) (st st' : ListenerState) (h : GoodState
   rw [hg] at hg0; injection hg0 with e; subst e
   rw [hg'] at hg0'; injection hg0' with e'; subst e'
   exact tucan_invariant O iso hchem gw gs gw' gs' hs hs'
+
+/-- **Respelling, at the level of strings.**  Two accepted strings whose syntax trees say the same thing
+(`SameMeaning`: the same formula; the same set of bonded pairs — tuples in any order, endpoints either way round,
+a tuple any number of times; the same attribute settings — blocks in any order, split or merged, properties in
+any order) normalize to the same string, for every oracle meeting the bliss contract.  (Renumbering atoms inside
+an element block is `C11_respelling` with a non-identity `π`.) -/
+theorem C11_respelled_strings (O : CanonOracle) (s s' : Str) (toks toks' : List Tok) (ast ast' : Ast)
+    (hl : lex s = some toks) (hsen : Sentence toks ast) (hl' : lex s' = some toks') (hsen' : Sentence toks' ast')
+    (same : SameMeaning ast ast') (g g' : Graph)
+    (hg : graphFromTucan s = .ok g) (hg' : graphFromTucan s' = .ok g')
+    (t t' : Str) (ht : tucanOf O.order g = .ok t) (ht' : tucanOf O.order g' = .ok t') : t = t' :=
+  respelling_same_string O s s' toks toks' ast ast' hl hsen hl' hsen' same g g' hg hg' t t' ht ht'
 
 /-- every accepted string denotes a molecule graph: a `GoodState` listener state, and a well-formed simple
 graph of chemistry-level atoms on the labels `0 … n-1` -/
